@@ -29,7 +29,11 @@ pub struct C20;
 /// tolerance on the distance excess over the optimum (linear-light units, range 0..sqrt(3))
 pub const TAU: f64 = 2e-5;
 /// half-width of the band around a luminance midpoint in which either neighbour is accepted
-pub const BAND: f64 = 0.01;
+pub const BAND: f64 = 1e-3;
+/// the boundary between grey level k and k+1 may lie anywhere between the midpoint of the
+/// evenly spaced levels (k/3) and the midpoint of the two-digit levels 0, 0.33, 0.66, 1 the
+/// library (and anyone rounding thirds to two digits) uses, widened by `BAND` for f32 rounding
+pub const GREY_BOUNDARY: [(f64, f64); 3] = [(0.165 - BAND, 1.0 / 6.0 + BAND), (0.495 - BAND, 0.5 + BAND), (0.83 - BAND, 5.0 / 6.0 + BAND)];
 /// two colours are ordered by luma only if their f64 lumas differ by more than this
 /// (the library evaluates luma in f32: absolute error < 3e-7 per colour)
 pub const LUMA_EPS: f64 = 2e-6;
@@ -602,14 +606,16 @@ fn judge(
             }
             // nearest of the evenly spaced levels, either neighbour inside the band
             let off = (l - level as f64 / 3.0).abs();
+            let lo = if level == 0 { f64::NEG_INFINITY } else { GREY_BOUNDARY[level as usize - 1].0 };
+            let hi = if level == 3 { f64::INFINITY } else { GREY_BOUNDARY[level as usize].1 };
             ensure!(
-                off <= 1.0 / 6.0 + BAND,
+                lo <= l && l <= hi,
                 "gray/not-nearest-level",
                 "grey depth, {role:?} {color:?}: luma {l:.5} mapped to level {level} (= {:.4}), which is {off:.4} away; nearest level is {}",
                 level as f64 / 3.0,
                 (l * 3.0).round()
             );
-            let band = [1.0 / 6.0, 0.5, 5.0 / 6.0].iter().any(|m| (l - m).abs() <= BAND);
+            let band = GREY_BOUNDARY.iter().any(|(a, b)| *a <= l && l <= *b);
             Ok(Verdict::Level { level, band })
         }
     }
@@ -1120,7 +1126,7 @@ impl Property for C20 {
             format!("tolerance tau = {TAU:e} on d(chosen) - d(optimum): the library compares against tables rounded to 6 decimals (entry error <= 5e-7, i.e. <= 1e-6 on a distance) in f32 arithmetic, so its choice can exceed the optimum by at most ~3e-6; tau leaves a factor ~7. Measured maximum over all 2^24 colours: see samples (d256_max_excess_over_optimum)"),
             "xterm palette: indices 16..231 = 6x6x6 cube on levels 0,95,135,175,215,255 (16+36r+6g+b), 232..255 = greys 8+10i; indices 0..15 and the basic colours are never acceptable at 256-colour depth".into(),
             "luma = 0.2126 R + 0.7152 G + 0.0722 B on the gamma-encoded channel values / 255 — the definition of rasterize::Color::luma, which the library uses, rewritten independently in f64 (NOT linear-light luminance)".into(),
-            format!("grey levels in increasing order 30<90<37<97 (bg 40<100<47<107) stand for luminances 0, 1/3, 2/3, 1; within +-{BAND} of a midpoint (1/6, 1/2, 5/6) either neighbour is accepted (the library uses 0.33/0.66); monotonicity is required only between colours whose f64 lumas differ by more than {LUMA_EPS:e} (f32 evaluation error)"),
+            format!("grey levels in increasing order 30<90<37<97 (bg 40<100<47<107) stand for luminances 0, 1/3, 2/3, 1; the boundary between two neighbouring levels may lie anywhere between the midpoint of the exact thirds (1/6, 1/2, 5/6) and the midpoint of the two-digit levels 0.33/0.66 the library uses (0.165, 0.495, 0.83), widened by {BAND} for f32 rounding; inside those three narrow bands either neighbour is accepted, outside them the nearer level is required; monotonicity is required only between colours whose f64 lumas differ by more than {LUMA_EPS:e} (f32 evaluation error)"),
             "sweep uses per-channel linear-light tables built from LinColor::from(RGBA::new(v,v,v,255)) (the conversion is per channel); generated cases convert every colour directly".into(),
             "the emitted colour of a role is the one in effect after the SGR sequence (last parameter wins, 0 resets); both `;` and `:` forms of 38/48/58 are accepted".into(),
             "the sweep in thorough tier makes the statement exhaustive (see exhaustive_scope)".into(),
